@@ -309,7 +309,7 @@ class P:
             pre = ""
             while self.at("*") and (self.at("mut", 1) or self.at("const", 1)):
                 pre += "*" + self.peek(1)[1] + " "; self.i += 2
-            t = pre + self.ty({",", ";", ")", "}", "{", "=", "==", "!=", "<=", ">=", "&&", "||", "+", "-", "*", "/", "%", "&", "|", "^",
+            t = pre + self.ty({"as", ",", ";", ")", "}", "{", "=", "==", "!=", "<=", ">=", "&&", "||", "+", "-", "*", "/", "%", "&", "|", "^",
                          "=>", "?", ".", "<<", ">>"})
             e = ("cast", e, t)
         return e
